@@ -497,34 +497,46 @@ type errorableKV struct {
 	error
 }
 
-func sendKV(vctx storage.VersionedCtx, values []*storage.KeyValue, ch chan errorableKV) {
+// send delivers one result unless the consumer has stopped listening (done is closed), so that
+// a range query that is ended early does not leave its producer behind on a channel nobody reads.
+func send(ch chan errorableKV, done <-chan struct{}, result errorableKV) bool {
+	select {
+	case ch <- result:
+		return true
+	case <-done:
+		return false
+	}
+}
+
+// sendKV returns false if the consumer has stopped listening.
+func sendKV(vctx storage.VersionedCtx, values []*storage.KeyValue, ch chan errorableKV, done <-chan struct{}) bool {
 	if len(values) != 0 {
 		kv, err := vctx.VersionedKeyValue(values)
 		if err != nil {
-			ch <- errorableKV{nil, err}
-			return
+			return send(ch, done, errorableKV{nil, err})
 		}
 		if kv != nil {
-			ch <- errorableKV{kv, nil}
+			return send(ch, done, errorableKV{kv, nil})
 		}
 	}
+	return true
 }
 
 // versionedRange sends a range of key-value pairs for a particular version down a channel.
 func (db *BadgerDB) versionedRange(vctx storage.VersionedCtx, begTKey, endTKey storage.TKey, ch chan errorableKV, done <-chan struct{}, keysOnly bool) {
 	minKey, err := vctx.MinVersionKey(begTKey)
 	if err != nil {
-		ch <- errorableKV{nil, err}
+		send(ch, done, errorableKV{nil, err})
 		return
 	}
 	maxKey, err := vctx.MaxVersionKey(endTKey)
 	if err != nil {
-		ch <- errorableKV{nil, err}
+		send(ch, done, errorableKV{nil, err})
 		return
 	}
 	maxVersionKey, err := vctx.MaxVersionKey(begTKey)
 	if err != nil {
-		ch <- errorableKV{nil, err}
+		send(ch, done, errorableKV{nil, err})
 		return
 	}
 
@@ -560,14 +572,16 @@ func (db *BadgerDB) versionedRange(vctx storage.VersionedCtx, begTKey, endTKey s
 						return err
 					}
 				}
-				sendKV(vctx, values, ch)
+				if !sendKV(vctx, values, ch, done) {
+					return nil
+				}
 				values = []*storage.KeyValue{}
 			}
 
 			// Did we pass the final key?
 			if bytes.Compare(kv.K, maxKey) > 0 {
 				if len(values) > 0 {
-					sendKV(vctx, values, ch)
+					sendKV(vctx, values, ch, done)
 				}
 				return nil
 			}
@@ -581,11 +595,11 @@ func (db *BadgerDB) versionedRange(vctx storage.VersionedCtx, begTKey, endTKey s
 			values = append(values, kv)
 		}
 		if len(values) > 0 {
-			sendKV(vctx, values, ch)
+			sendKV(vctx, values, ch, done)
 		}
 		return nil
 	})
-	ch <- errorableKV{nil, err}
+	send(ch, done, errorableKV{nil, err})
 }
 
 // unversionedRange sends a range of key-value pairs down a channel.
@@ -624,7 +638,7 @@ func (db *BadgerDB) unversionedRange(ctx storage.Context, begTKey, endTKey stora
 		}
 		return nil
 	})
-	ch <- errorableKV{nil, err}
+	send(ch, done, errorableKV{nil, err})
 	return
 }
 
